@@ -69,6 +69,9 @@ type Ctx struct {
 	curRule  string
 	declIdx  map[*types.Func]*ast.FuncDecl
 	declFile map[*ast.FuncDecl]*packages.Package
+	roles    map[*types.Func]string
+	gmodel   *grammarModel
+	fmodel   *fusionModel
 }
 
 func shortPkg(path string) string {
